@@ -39,6 +39,7 @@ type vfs struct {
 	files   map[string]*vfile
 	handles map[*Value]*vhandle
 	digests map[*Value][]*sym.Term
+	hashes  []digestRec
 	clock   int64
 }
 
@@ -95,8 +96,16 @@ func bytesOf(v Value) []*sym.Term {
 	return b
 }
 
-// hashBytes is the SHA-256 model.
+type digestRec struct {
+	in, out []*sym.Term
+}
+
+// hashBytes is the SHA-256 model: the real digest for concrete input; for
+// input with symbolic bytes 32 fresh bytes constrained to behave like a
+// collision-free function of the input with respect to every other digest
+// computed on the same path (equal inputs <=> equal digests).
 func hashBytes(in *Interp, b []*sym.Term) []*sym.Term {
+	f := in.fs()
 	concrete := true
 	for _, x := range b {
 		if !x.IsConst() {
@@ -114,21 +123,42 @@ func hashBytes(in *Interp, b []*sym.Term) []*sym.Term {
 		for i := range sum {
 			out[i] = sym.BV(uint64(sum[i]), 8)
 		}
-		return out
-	}
-	if len(b) > 29 {
-		in.unsupported("SHA-256 of more than 29 bytes with symbolic content")
-	}
-	// injective encoding: marker, length, content, zero padding
-	out[0] = sym.BV(0xEE, 8)
-	out[1] = sym.BV(uint64(len(b)), 8)
-	for i := 2; i < 32; i++ {
-		if i-2 < len(b) {
-			out[i] = b[i-2]
-		} else {
-			out[i] = sym.BV(0, 8)
+	} else {
+		if in.ss == nil {
+			in.unsupported("SHA-256 of symbolic bytes outside a symbolic run")
+		}
+		k := len(f.hashes)
+		for i := range out {
+			v := sym.Var(fmt.Sprintf("sha!%d!%d", k, i), 8)
+			in.ss.Declare(v)
+			out[i] = v
 		}
 	}
+	for _, r := range f.hashes {
+		rc := true
+		for _, x := range r.in {
+			if !x.IsConst() {
+				rc = false
+				break
+			}
+		}
+		if rc && concrete {
+			continue
+		}
+		eqIn := sym.False
+		if len(r.in) == len(b) {
+			eqIn = sym.True
+			for i := range b {
+				eqIn = sym.And(eqIn, sym.Eq(b[i], r.in[i]))
+			}
+		}
+		eqOut := sym.True
+		for i := range out {
+			eqOut = sym.And(eqOut, sym.Eq(out[i], r.out[i]))
+		}
+		in.addPC(sym.Eq(eqIn, eqOut))
+	}
+	f.hashes = append(f.hashes, digestRec{append([]*sym.Term(nil), b...), out})
 	return out
 }
 
